@@ -7,6 +7,10 @@
   same keys with pointwise larger values on the right; provisional values of heads are larger on
   the right; every head known at the end of pass `t` is known to `r` from the start.
 
+  GATE-FREE programs only: with value-controlled gates pass `t+1` can reach nodes pass `t` never
+  reached, create new (nested) cycle heads that restart from ∅, and values can DROP from one pass
+  to the next (`Props/C12.lean: c12_chain_fails_with_gates`).
+
   Main lemma (`fetch_sim`/`evalM_sim`/`execute_sim`): whatever pass `t` does successfully, pass
   `t+1` does successfully too, with a larger value, preserving `Sim`, and without ever
   creating a cycle head (`r'.prov = r.prov`).  The only asymmetric case — the left pass
@@ -75,9 +79,9 @@ theorem Sim.cached {e l1 r1 : St} (h : Sim e l1 r1) (c : Nat) {v v' : Nat} (hs h
       rw [cval_cons_subst_ne r1 c v' hs' hkc]
       exact h.cacheLe k w hk
 
-theorem Sim.below {e l1 r1 : St} (h : Sim e l1 r1) (hb : belowOf false l1 = true) :
-    belowOf false r1 = true := by
-  rw [belowOf_false] at hb ⊢
+theorem Sim.below {e l1 r1 : St} (h : Sim e l1 r1) (hb : belowOf l1 = true) :
+    belowOf r1 = true := by
+  unfold belowOf at hb ⊢
   obtain ⟨k, hk, hp⟩ := (below_iff l1).mp hb
   obtain ⟨w, hw⟩ := isHead_iff.mp hp
   obtain ⟨w', hw', _⟩ := h.provLe k w hw
@@ -112,7 +116,7 @@ def ExecSim (exec : Nat → St → Res Fetched) : Prop :=
 
 theorem evalM_sim {read : Nat → St → Res Fetched} (hR : ReadSpec P env read)
     (hS : ReadSim P env read) :
-    ∀ (ex : Expr) (e l r : St) (v : Nat) (hs : List Nat) (l' : St),
+    ∀ (ex : Expr), ex.noGate = true → ∀ (e l r : St) (v : Nat) (hs : List Nat) (l' : St),
       Inv P env l → Inv P env r → Inv P env e → Sim e l r → Ext l' e →
       evalM env read ex l = .ok (v, hs, l') →
       ∃ v' hs' r', evalM env read ex r = .ok (v', hs', r') ∧ Sim e l' r' ∧ le v v' ∧
@@ -120,19 +124,19 @@ theorem evalM_sim {read : Nat → St → Res Fetched} (hR : ReadSpec P env read)
   intro ex
   induction ex with
   | const c =>
-    intro e l r v hs l' _ _ _ hSim _ h
+    intro _ e l r v hs l' _ _ _ hSim _ h
     simp only [evalM] at h
     injection h with h; injection h with h1 h; injection h with h2 h3
     subst h1; subst h3
     exact ⟨_, [], r, rfl, hSim, le_refl _, rfl⟩
   | input i =>
-    intro e l r v hs l' _ _ _ hSim _ h
+    intro _ e l r v hs l' _ _ _ hSim _ h
     simp only [evalM] at h
     injection h with h; injection h with h1 h; injection h with h2 h3
     subst h1; subst h3
     exact ⟨_, [], r, rfl, hSim, le_refl _, rfl⟩
   | call j =>
-    intro e l r v hs l' hIl hIr hIe hSim hEe h
+    intro _ e l r v hs l' hIl hIr hIe hSim hEe h
     simp only [evalM] at h
     cases hr : read j l with
     | error err => rw [hr] at h; cases h
@@ -145,7 +149,10 @@ theorem evalM_sim {read : Nat → St → Res Fetched} (hR : ReadSpec P env read)
       refine ⟨w' % 256, hs', r', ?_, hS', mod_mono hle, hp⟩
       simp only [evalM, hr']
   | union a b iha ihb =>
-    intro e l r v hs l' hIl hIr hIe hSim hEe h
+    intro hng e l r v hs l' hIl hIr hIe hSim hEe h
+    simp only [Expr.noGate, Bool.and_eq_true] at hng
+    have iha := iha hng.1
+    have ihb := ihb hng.2
     simp only [evalM] at h
     cases ha : evalM env read a l with
     | error err => rw [ha] at h; cases h
@@ -170,7 +177,10 @@ theorem evalM_sim {read : Nat → St → Res Fetched} (hR : ReadSpec P env read)
         refine ⟨x' ||| y', h1' ++ h2', r2, ?_, hS2, or_mono hlex hley, hp2.trans hp1⟩
         simp only [evalM, hra, hrb]
   | inter a b iha ihb =>
-    intro e l r v hs l' hIl hIr hIe hSim hEe h
+    intro hng e l r v hs l' hIl hIr hIe hSim hEe h
+    simp only [Expr.noGate, Bool.and_eq_true] at hng
+    have iha := iha hng.1
+    have ihb := ihb hng.2
     simp only [evalM] at h
     cases ha : evalM env read a l with
     | error err => rw [ha] at h; cases h
@@ -195,11 +205,13 @@ theorem evalM_sim {read : Nat → St → Res Fetched} (hR : ReadSpec P env read)
         refine ⟨x' &&& y', h1' ++ h2', r2, ?_, hS2, and_mono hlex hley, hp2.trans hp1⟩
         simp only [evalM, hra, hrb]
   | ite i a b iha ihb =>
-    intro e l r v hs l' hIl hIr hIe hSim hEe h
+    intro hng e l r v hs l' hIl hIr hIe hSim hEe h
+    simp only [Expr.noGate, Bool.and_eq_true] at hng
     simp only [evalM] at h ⊢
     split at h
-    · rename_i hc; rw [if_pos hc]; exact iha e l r v hs l' hIl hIr hIe hSim hEe h
-    · rename_i hc; rw [if_neg hc]; exact ihb e l r v hs l' hIl hIr hIe hSim hEe h
+    · rename_i hc; rw [if_pos hc]; exact iha hng.1 e l r v hs l' hIl hIr hIe hSim hEe h
+    · rename_i hc; rw [if_neg hc]; exact ihb hng.2 e l r v hs l' hIl hIr hIe hSim hEe h
+  | gate g a _ _ => intro hng; simp [Expr.noGate] at hng
 
 end
 
